@@ -36,6 +36,8 @@ FUNCTIONS = [
     "ombott.request_pkg.request:BaseRequest._raise",
 ]
 STUBS = ["SymStream (see C04)", "PyBytesIO for io.BytesIO/TemporaryFile inside body_mixin",
+         "vf.instrument: ombott compiled from its current source with a scheduling point in front of every statement of every "
+         "function body (no-op except in family stmt/); SimThreads for `threading` inside ombott.common_helpers (stmt/ only)",
          "vf.chmodels.int_model for int(bytes, 16)",
          "vf.stubs_c05.Rope/Lit: bytes-like value of framing bytes + opaque payload ranges (offset, solver length), every "
          "payload byte is b'x'; len/slice/index/concat/==/startswith/endswith validated against real bytes at import",
